@@ -6,12 +6,15 @@
 (*          alleles are the strings pysam reports (sampleData.alleles), "." = missing (None)     *)
 (*   sel  = [explicit |-> BOOLEAN, s |-> set of sample names]  (select_samples; explicit = FALSE: None) *)
 (*   ign  = set of <<ref, alt>> (ignore_conversions; {} = None)                                  *)
-(* P-level: Class / AnswerOK.  The statement leaves two corners open, which are classified       *)
-(* "either" (nothing or the carriers - but the same in every loading mode):                      *)
-(*   - a missing genotype next to a called one at a site that also has a multi-base allele;      *)
-(*   - an ignored conversion ref>alt whose alt no selected sample carries;                       *)
-(*   - a record that is not a pure SNV record (multi-base REF or some multi-base ALT) although   *)
-(*     every carried allele is a single base (e.g. the 1-base allele of a deletion).            *)
+(* P-level: Class / AnswerOK.  Reading of the statement (sample-centric): a site is judged by the  *)
+(* genotypes of the SELECTED samples only - "returns exactly the selected samples whose genotype  *)
+(* at that single-nucleotide site contains the base".  If every allele the selected samples carry *)
+(* is a single nucleotide, the site is informative for them (two distinct bases, or a missing     *)
+(* genotype next to a called one) and no CARRIED conversion ref>base is ignored, the carriers     *)
+(* must be returned ("store"); alleles merely listed in REF/ALT, or carried only by samples that  *)
+(* are not selected, do not matter.  One corner stays open ("either": nothing or the carriers,   *)
+(* but the same in every loading mode): a selected sample carries a multi-base allele while a     *)
+(* missing genotype is present (the code's `monomorphic` flag resets `bad`).                      *)
 (* D-level: StoreCode is the decision procedure of fetchChromosome (alleleTools.py:256-303) with *)
 (* its flags used/bad/monomorphic in the order of the code.                                      *)
 EXTENDS Integers, FiniteSets, Sequences, Util
@@ -36,7 +39,7 @@ Class(site, sel, ign) ==
     IF cb = {} THEN "drop"                                                     \* nobody selected carries a single base
     ELSE IF ~Mono(site, sel) /\ (Multi(site, sel) \/ Cardinality(cb) < 2) THEN "drop"   \* not a SNV site / uninformative
     ELSE IF IgnCalled(site, sel, ign) THEN "drop"                              \* involves an ignored conversion
-    ELSE IF (Mono(site, sel) /\ Multi(site, sel)) \/ IgnAny(site, ign) \/ NonSNVRecord(site) THEN "either"
+    ELSE IF Mono(site, sel) /\ Multi(site, sel) THEN "either"
     ELSE "store"
 
 (* is `ans` (set of samples, {} = None) an admissible answer of getAllelesAt(.., b) at this site? *)
@@ -59,4 +62,14 @@ StoreCode(site, sel, ign) ==
         bad2 == IF Mono(site, sel) /\ cb # {} THEN FALSE ELSE IF Cardinality(cb) < 2 THEN TRUE ELSE bad1
         bad3 == IF ~bad2 THEN IgnCalled(site, sel, ign) ELSE bad2
     IN used /\ ~bad3
+
+(* mutation controls (seeded changes C18-m1, C18-m4): record-centric variants of the procedure *)
+StoreCodeIgnListed(site, sel, ign) ==       \* ignored conversions tested against the LISTED alts
+    LET cb == CalledBases(site, sel)
+        bad2 == IF Mono(site, sel) /\ cb # {} THEN FALSE ELSE IF Cardinality(cb) < 2 THEN TRUE ELSE Multi(site, sel)
+    IN cb # {} /\ ~bad2 /\ ~IgnAny(site, ign)
+StoreCodeRecordSNV(site, sel, ign) ==       \* a multi-base allele anywhere in the record spoils the site
+    LET cb == CalledBases(site, sel)
+        bad2 == IF Mono(site, sel) /\ cb # {} THEN FALSE ELSE IF Cardinality(cb) < 2 THEN TRUE ELSE NonSNVRecord(site)
+    IN cb # {} /\ ~(IF ~bad2 THEN IgnCalled(site, sel, ign) ELSE bad2)
 =================================================================================================
